@@ -59,7 +59,8 @@ FIXED_HANDLERS = [['a'], ['a', 'b'], ['b']]
 
 
 def callbacks_of(handlers, events):
-    return sum(sum(1 for h in handlers if ev in h) for ev in events)
+    return sum(1 if ev == '+' else sum(1 for h in handlers if ev in h)
+               for ev in events)
 
 
 def gen_cases(tier, seed):
@@ -77,6 +78,19 @@ def gen_cases(tier, seed):
                                    'cycles': cycles, 'world': world,
                                    'direct': cycles == 2,
                                    'extra': [['b', 'a']] * cycles}
+    # ---- World only: lifecycle relays ('+' = create_entity with an on_add
+    # handler while disabled) share the queue with ordinary events
+    for n in range(1, 4):
+        for events in itertools.product('ab+', repeat=n):
+            if '+' not in events:
+                continue
+            total = callbacks_of(FIXED_HANDLERS, events)
+            for pos in range(total):
+                for kind in FAULTS:
+                    yield {'handlers': FIXED_HANDLERS, 'spare': ['a', 'b'],
+                           'events': list(events), 'faults': [[0, pos, kind]],
+                           'cycles': 1, 'world': True, 'direct': True,
+                           'extra': [['+', 'a']]}
     if tier == 'quick':
         n = 600
     else:
@@ -86,7 +100,7 @@ def gen_cases(tier, seed):
         names = 'abc'
         handlers = [sorted(rng.sample(names, rng.randint(1, 3)))
                     for _ in range(rng.randint(1, 3))]
-        events = [rng.choice(names + 'z') for _ in range(rng.randint(1, 8))]
+        events = [rng.choice(names + 'z+') for _ in range(rng.randint(1, 8))]
         cycles = rng.randint(1, 3)
         extra = [[rng.choice(names) for _ in range(rng.randint(0, 3))]
                  for _ in range(cycles)]
@@ -162,6 +176,37 @@ def run_case(case):
     for h in handlers:
         d.add_handler(h)
 
+    attach_owner = {}
+
+    def on_add(self, entity, world):
+        seq[0] += 1
+        log.append((seq[0], self.idx, self.tok, assignment[0],
+                    d.dispatch_enabled))
+        if assignment[0] is None:
+            return
+        k = cb_in_assignment[0]
+        cb_in_assignment[0] += 1
+        f = faults.get(assignment[0])
+        if f is not None and f[0] == k:
+            inject(f[1], self.tok)
+
+    AttachH = desper.event_handler('on_add')(
+        type('AttachH', (), {'on_add': on_add}))
+
+    def send(name):
+        """Dispatch one scripted event ('+' = a lifecycle relay)."""
+        if name == '+' and case['world']:
+            h = AttachH()
+            h.idx = len(all_handlers)
+            h.tok = new_token('+')
+            all_handlers.append(h)
+            listening.append(set())
+            attach_owner[h.tok] = h.idx
+            d.create_entity(h)
+        else:
+            name = 'a' if name == '+' else name
+            d.dispatch(name, new_token(name))
+
     def new_token(name):
         tok = len(tokens)
         # third field: None when the event was queued (dispatched while
@@ -192,11 +237,13 @@ def run_case(case):
             # everything that is still pending)
             d.dispatch_enabled = False
             dispatched_from_callbacks[0] += 1
-            name = case['events'][-1] if case['events'][-1] != 'z' else 'a'
+            name = case['events'][-1] if case['events'][-1] not in 'z+' \
+                else 'a'
             d.dispatch(name, new_token(name))
         elif kind == 'dispatch':
             dispatched_from_callbacks[0] += 1
-            name = case['events'][0] if case['events'][0] != 'z' else 'a'
+            name = case['events'][0] if case['events'][0] not in 'z+' \
+                else 'a'
             d.dispatch(name, new_token(name))
         elif kind == 'addh':
             d.add_handler(spare)
@@ -254,6 +301,15 @@ def run_case(case):
             for tok, name, _ in tokens:
                 if name == 'z' or tok in faulting_tokens:
                     continue
+                if name == '+':
+                    if (attach_owner[tok], tok) not in got:
+                        res.div(index, 'left-pending', 'an enabling '
+                                'assignment returned normally, dispatching '
+                                f'enabled, with the postponed on_add (token '
+                                f'{tok}) not delivered', 'delivered',
+                                'still pending', injected=list(injected))
+                        return outcome
+                    continue
                 for h in range(len(handlers)):
                     if h in changed_h or name not in listening[h]:
                         continue
@@ -272,7 +328,7 @@ def run_case(case):
     try:
         d.dispatch_enabled = False
         for name in case['events']:
-            d.dispatch(name, new_token(name))
+            send(name)
         if log:
             res.div(0, 'callback-while-disabled', 'a callback ran while '
                     'dispatching was disabled', [], log[:3])
@@ -292,7 +348,7 @@ def run_case(case):
             before = len(log)
             d.dispatch_enabled = False
             for name in case['extra'][c]:
-                d.dispatch(name, new_token(name))
+                send(name)
             if len(log) != before:
                 res.div(index, 'callback-while-disabled', 'a callback ran '
                         'while dispatching was disabled', [], log[before:][:3])
@@ -315,7 +371,7 @@ def run_case(case):
 
     if not res.divs:
         judge(case, res, log, tokens, changes, faulting_tokens, outcomes,
-              listening)
+              listening, attach_owner, spare.idx)
     ncallbacks = callbacks_of(case['handlers'], case['events'])
     pos = case['faults'][0][1]
     res.nontrivial = ((len(case['events']) >= 2 and 0 < pos < ncallbacks - 1
@@ -327,7 +383,7 @@ def run_case(case):
 
 
 def judge(case, res, log, tokens, changes, faulting_tokens, outcomes,
-          listening):
+          listening, attach_owner, spare_idx):
     nh = len(listening)
     changed = {c[1] for c in changes}
     # 1. never while disabled
@@ -354,6 +410,18 @@ def judge(case, res, log, tokens, changes, faulting_tokens, outcomes,
         if name == 'z':
             continue
         for h in range(nh):
+            if name == '+':
+                n = total.get((h, tok), 0)
+                want = 1 if h == attach_owner[tok] else 0
+                if tok in faulting_tokens and want == 1:
+                    res.stats['dontcare_faulting_event'] += 1
+                elif n != want:
+                    res.div(-1, 'event-lost' if n < want
+                            else 'event-redelivered', f'postponed on_add '
+                            f'(token {tok}) reached handler {h} {n} time(s)',
+                            expected=want, observed=n)
+                    return
+                continue
             if name not in listening[h]:
                 if total.get((h, tok), 0):
                     res.div(-1, 'wrong-listener', f'handler {h} does not '
@@ -365,7 +433,7 @@ def judge(case, res, log, tokens, changes, faulting_tokens, outcomes,
             if tok in faulting_tokens:
                 res.stats['dontcare_faulting_event'] += 1
                 continue
-            if h == nh - 1 and h not in changed:
+            if h == spare_idx and h not in changed:
                 want = 0            # the spare handler was never registered
             elif h not in changed:
                 want = 1
